@@ -12,7 +12,7 @@ import (
 	vs "github.com/trzsz/trzsz-go/zzverif/vsched"
 )
 
-var c12ScannerNames = []string{"detectTrzsz", "detectZmodem", "detectOSC52", "detectDragFiles", "stripTmuxStatusLine", "readLineOnWindows", "escapeTable", "transformPromptInput", "drag-mac-win", "archiveHeader"}
+var c12ScannerNames = []string{"detectTrzsz", "detectZmodem", "detectOSC52", "detectDragFiles", "stripTmuxStatusLine", "readLineOnWindows", "escapeTable", "transformPromptInput", "drag-mac-win", "readLine", "archiveHeader"}
 
 // token alphabets: fragments that steer each scanner into its branches
 var c12Tokens = map[string][]string{
@@ -24,6 +24,7 @@ var c12Tokens = map[string][]string{
 	"readLineOnWindows":    {"#", "A", "8", "!", "\n", "\r", "\x1b[", "25;119H", "H", "K", "m", "\x1b", "\x03", "[", "1", ";", " ", "="},
 	"escapeTable":          {"[", "]", "\"", "\\u00ee", "\u00ee", "1", ",", "a", "null", "{", "}", ":", "\\u", "\\ud800"},
 	"transformPromptInput": {"send -t %1 ", "send -lt %1 ", "0x3", "0xd", "0x", "0xzz", "0x7fffffff", ";", "\r", "\x1b[", "A", "B", "Z", "q", "\x03", "j", "\t", " "},
+	"readLine":             {"\n", "\r", "\r\n", "#", "A", ":", "\x03", "#SUCC:", "x", "\n\n", " "},
 	"drag-mac-win":         {"/", "/Users", "\\ ", " ", "C:\\", "C:\\Windows", "\"", "/c/", "/cygdrive/c/", "x", "\\", "'", ":", "\x1b[200~"},
 }
 
@@ -56,6 +57,31 @@ func c12Scan(name string, in []byte) {
 	case "stripTmuxStatusLine":
 		t := &trzszTransfer{}
 		t.stripTmuxStatusLine(append([]byte(nil), in...))
+	case "readLine":
+		// the line reader behind every recvLine: strict and junk-tolerant, whole and in two chunks, several lines in a row
+		for _, junk := range []bool{true, false} {
+			for _, two := range []bool{false, true} {
+				b := newTrzszBuffer()
+				if two {
+					h := len(in) / 2
+					if h > 0 {
+						b.addBuffer(append([]byte(nil), in[:h]...))
+					}
+					if len(in) > h {
+						b.addBuffer(append([]byte(nil), in[h:]...))
+					}
+				} else if len(in) > 0 {
+					b.addBuffer(append([]byte(nil), in...))
+				}
+				for i := 0; i < 4; i++ {
+					fired := make(chan time.Time, 1)
+					fired <- time.Time{}
+					if _, err := b.readLine(junk, fired); err != nil {
+						break
+					}
+				}
+			}
+		}
 	case "readLineOnWindows":
 		b := newTrzszBuffer()
 		b.addBuffer(append([]byte(nil), in...))
